@@ -33,6 +33,8 @@ const (
 	OCorruptTail = "corrupt-tail"  // extends exactly, one byte of the trailer flipped
 	OTruncated   = "truncated"     // extends exactly, the file ends early
 	OGarbageHdr  = "garbage-header" // not an LTX header at all
+	OOverlap     = "overlap-range"  // a compacted range [t-d+1, t+1] with pre-apply checksum c: ends right, starts inside the log
+	OGoodRange   = "good-range"     // a compacted range [t+1, t+1+d] extending (t, c) exactly: must be accepted
 )
 
 type Offer struct {
@@ -68,7 +70,7 @@ func genRejectPlan(t *rapid.T) RejectPlan {
 	for i := 0; i < ns; i++ {
 		p.Setup = append(p.Setup, mk(txs[i]))
 	}
-	kinds := []string{OGood, OGap, OGap, ORepeat, ORepeat, OPreChecksum, OPreChecksum, OBothWrong, OCorruptPage, OCorruptPage, OCorruptTail, OTruncated, OGarbageHdr}
+	kinds := []string{OGood, OGoodRange, OOverlap, OOverlap, OGap, OGap, ORepeat, ORepeat, OPreChecksum, OPreChecksum, OBothWrong, OCorruptPage, OCorruptPage, OCorruptTail, OTruncated, OGarbageHdr}
 	for i := 0; i < no; i++ {
 		p.Offers = append(p.Offers, Offer{
 			Route:  rapid.SampledFrom([]string{"stream", "tx"}).Draw(t, "route"),
@@ -89,7 +91,16 @@ func genRejectPlan(t *rapid.T) RejectPlan {
 func buildOffer(o Offer, img *ref.Image, pos ref.Pos, foreign uint64) (file []byte, accept bool, next *ref.Image, kind string) {
 	kind = o.Kind
 	minTXID, pre := pos.TXID+1, pos.Checksum
+	maxTXID := uint64(0)
 	switch o.Kind {
+	case OOverlap:
+		if pos.TXID < uint64(o.D)+1 {
+			minTXID, kind = pos.TXID+1+uint64(o.D), OGap
+		} else {
+			minTXID, maxTXID = pos.TXID-uint64(o.D)+1, pos.TXID+1
+		}
+	case OGoodRange:
+		maxTXID = pos.TXID + 1 + uint64(o.D)
 	case OGap:
 		minTXID = pos.TXID + 1 + uint64(o.D)
 	case ORepeat:
@@ -102,6 +113,9 @@ func buildOffer(o Offer, img *ref.Image, pos ref.Pos, foreign uint64) (file []by
 		pre = foreign
 	case OBothWrong:
 		minTXID, pre = pos.TXID+1+uint64(o.D), foreign
+	}
+	if maxTXID == 0 {
+		maxTXID = minTXID
 	}
 	next = img.Clone()
 	hdr := append([]byte(nil), img.Page(1)...)
@@ -123,7 +137,7 @@ func buildOffer(o Offer, img *ref.Image, pos ref.Pos, foreign uint64) (file []by
 	}
 	var buf bytes.Buffer
 	enc := ltx.NewEncoder(&buf)
-	_ = enc.EncodeHeader(ltx.Header{Version: 1, PageSize: img.PageSize, Commit: next.N(), MinTXID: ltx.TXID(minTXID), MaxTXID: ltx.TXID(minTXID), Timestamp: 1, PreApplyChecksum: ltx.Checksum(pre), NodeID: 0xbad})
+	_ = enc.EncodeHeader(ltx.Header{Version: 1, PageSize: img.PageSize, Commit: next.N(), MinTXID: ltx.TXID(minTXID), MaxTXID: ltx.TXID(maxTXID), Timestamp: 1, PreApplyChecksum: ltx.Checksum(pre), NodeID: 0xbad})
 	for _, pg := range pgnos {
 		_ = enc.EncodePage(ltx.PageHeader{Pgno: pg}, next.Page(pg))
 	}
@@ -150,7 +164,7 @@ func buildOffer(o Offer, img *ref.Image, pos ref.Pos, foreign uint64) (file []by
 			file[0] = 'X'
 		}
 	}
-	return file, kind == OGood, next, kind
+	return file, kind == OGood || kind == OGoodRange, next, kind
 }
 
 // dirState captures everything an offer could have modified on a node.
@@ -325,6 +339,9 @@ func runRejectPlan(c *pbt.Case, p RejectPlan) {
 		after := capture(c, target, p.PageSize, o.Route == "tx")
 		if accept {
 			want := ref.Pos{TXID: before.pos.TXID + 1, Checksum: next.Checksum()}
+			if kind == OGoodRange {
+				want.TXID = before.pos.TXID + 1 + uint64(o.D)
+			}
 			if o.Route == "tx" && offerErr != nil {
 				c.Failf("C06/good-file-refused", "%s: %v", what, offerErr)
 			}
